@@ -836,4 +836,152 @@ theorem idMat_sym_pd (n : Nat) : IsSym (toM (idMat n)) ∧ IsPD (toM (idMat n)) 
 
 end misc
 
+/-! ## Part 7 — the MPC loop: iterates and best-so-far -/
+
+section mpcloop
+variable {ns nc : Nat}
+variable (sol : Solver ℝ ns nc) (S : Sys ℝ ns nc) (P : Prob ℝ ns nc) (dt : Nat) (x0 : Vec ℝ ns)
+  (uinit : Option (List (Vec ℝ nc)))
+
+/-- the `i`-th inner solve of the loop: linearised around the inputs of the previous one -/
+noncomputable def iterate : Nat → Out ℝ ns nc
+  | 0 => lqr sol S P dt x0 (nomOf uinit)
+  | i+1 => lqr sol S P dt x0 (nomOf (some (iterate i).u))
+
+/-- the `u` handed to the `n`-th inner solve -/
+noncomputable def uAt : Nat → Option (List (Vec ℝ nc))
+  | 0 => uinit
+  | n+1 => some (iterate sol S P dt x0 uinit n).u
+
+/-- `best` after `n` iterations -/
+noncomputable def bestOf : Nat → Best ℝ ns nc
+  | 0 => ⟨uinit, none⟩
+  | n+1 =>
+    let o := iterate sol S P dt x0 uinit n
+    let better := match (bestOf n).cost with
+      | none => true
+      | some c => Scalar.lt o.cost c
+    if better then ⟨some o.u, some o.cost⟩ else bestOf n
+
+theorem iterate_eq (n : Nat) : lqr sol S P dt x0 (nomOf (uAt sol S P dt x0 uinit n)) = iterate sol S P dt x0 uinit n := by
+  cases n <;> rfl
+
+/-- the loop, started after `n` iterations in the state the code would be in, ends with `best` = the
+running strict minimum over the iterations it performed -/
+theorem mpcLoop_best (fuel : Nat) : ∀ (st : Stepper ℝ) (n : Nat),
+    (mpcLoop sol S P dt x0 fuel st (uAt sol S P dt x0 uinit n) (bestOf sol S P dt x0 uinit n) n).1
+      = bestOf sol S P dt x0 uinit (mpcLoop sol S P dt x0 fuel st (uAt sol S P dt x0 uinit n) (bestOf sol S P dt x0 uinit n) n).2.2
+    ∧ n ≤ (mpcLoop sol S P dt x0 fuel st (uAt sol S P dt x0 uinit n) (bestOf sol S P dt x0 uinit n) n).2.2 := by
+  induction fuel with
+  | zero => intro st n; simp [mpcLoop]
+  | succ fuel ih =>
+    intro st n
+    by_cases hc : st.continual = true
+    · have e : mpcLoop sol S P dt x0 (fuel+1) st (uAt sol S P dt x0 uinit n) (bestOf sol S P dt x0 uinit n) n
+          = mpcLoop sol S P dt x0 fuel (st.step (iterate sol S P dt x0 uinit n).cost) (uAt sol S P dt x0 uinit (n+1))
+              (bestOf sol S P dt x0 uinit (n+1)) (n+1) := by
+        rw [mpcLoop]
+        simp only [hc, if_true]
+        rw [iterate_eq]
+        simp only [bestOf, uAt]
+        generalize bestOf sol S P dt x0 uinit n = b
+        rcases b with ⟨bu, bc⟩
+        cases bc <;> rfl
+      rw [e]
+      have := ih (st.step (iterate sol S P dt x0 uinit n).cost) (n+1)
+      exact ⟨this.1, by omega⟩
+    · have e : mpcLoop sol S P dt x0 (fuel+1) st (uAt sol S P dt x0 uinit n) (bestOf sol S P dt x0 uinit n) n
+          = (bestOf sol S P dt x0 uinit n, st, n) := by
+        rw [mpcLoop]; simp [hc]
+      rw [e]; simp
+
+/-- the running minimum: after at least one iteration `best` holds the inputs and cost of an iteration whose
+cost is minimal among all performed iterations -/
+theorem bestOf_min (n : Nat) : ∃ j, j < n + 1 ∧
+    bestOf sol S P dt x0 uinit (n+1) = ⟨some (iterate sol S P dt x0 uinit j).u, some (iterate sol S P dt x0 uinit j).cost⟩ ∧
+    ∀ i, i < n + 1 → (iterate sol S P dt x0 uinit j).cost ≤ (iterate sol S P dt x0 uinit i).cost := by
+  induction n with
+  | zero =>
+    refine ⟨0, by omega, ?_, ?_⟩
+    · simp [bestOf]
+    · intro i hi; have : i = 0 := by omega
+      subst this; exact le_refl _
+  | succ n ih =>
+    obtain ⟨j, hj, hb, hmin⟩ := ih
+    by_cases hlt : (iterate sol S P dt x0 uinit (n+1)).cost < (iterate sol S P dt x0 uinit j).cost
+    · refine ⟨n+1, by omega, ?_, ?_⟩
+      · rw [bestOf, hb]; simp [hlt]
+      · intro i hi
+        by_cases h : i = n + 1
+        · subst h; exact le_refl _
+        · exact le_trans (le_of_lt hlt) (hmin i (by omega))
+    · refine ⟨j, by omega, ?_, ?_⟩
+      · rw [bestOf, hb]; simp [hlt]
+      · intro i hi
+        by_cases h : i = n + 1
+        · subst h; exact not_lt.mp hlt
+        · exact hmin i (by omega)
+
+theorem mpcLoop_succ_true (fuel : Nat) (st : Stepper ℝ) (n : Nat) (hc : st.continual = true) :
+    mpcLoop sol S P dt x0 (fuel+1) st (uAt sol S P dt x0 uinit n) (bestOf sol S P dt x0 uinit n) n
+      = mpcLoop sol S P dt x0 fuel (st.step (iterate sol S P dt x0 uinit n).cost) (uAt sol S P dt x0 uinit (n+1))
+          (bestOf sol S P dt x0 uinit (n+1)) (n+1) := by
+  rw [mpcLoop]
+  simp only [hc, if_true]
+  rw [iterate_eq]
+  simp only [bestOf, uAt]
+  generalize bestOf sol S P dt x0 uinit n = b
+  rcases b with ⟨bu, bc⟩
+  cases bc <;> rfl
+
+/-- after `stepper.reset()` the loop body runs at least once -/
+theorem mpcLoop_ge_one (fuel : Nat) (st : Stepper ℝ) :
+    1 ≤ (mpcLoop sol S P dt x0 (fuel+1) st.reset uinit ⟨uinit, none⟩ 0).2.2 := by
+  have h := mpcLoop_succ_true sol S P dt x0 uinit fuel st.reset 0 (by simp [Stepper.reset])
+  simp only [uAt, bestOf] at h
+  rw [h]
+  exact (mpcLoop_best sol S P dt x0 uinit fuel _ 1).2
+
+theorem step_maxSteps (st : Stepper ℝ) (c : ℝ) : (st.step c).maxSteps = st.maxSteps := rfl
+theorem step_steps (st : Stepper ℝ) (c : ℝ) : (st.step c).steps = st.steps + 1 := rfl
+
+theorem step_continual (st : Stepper ℝ) (c : ℝ) (h : (st.step c).continual = true) :
+    ¬ (st.maxSteps ≤ ((st.steps + 1 : Nat) : Int)) := by
+  intro hle
+  unfold Stepper.step at h
+  simp only [hle, if_true] at h
+  split at h <;> simp at h
+
+/-- `ReduceToBason` stops the loop after `max(max_steps, 1)` iterations: more fuel changes nothing -/
+theorem mpcLoop_fuel (fuel : Nat) : ∀ (k : Nat) (st : Stepper ℝ) (u : Option (List (Vec ℝ nc))) (best : Best ℝ ns nc) (n : Nat),
+    (st.continual = true → (st.steps : Int) < max st.maxSteps 1 ∧ max st.maxSteps 1 - st.steps ≤ fuel) →
+    mpcLoop sol S P dt x0 fuel st u best n = mpcLoop sol S P dt x0 (fuel + k) st u best n := by
+  induction fuel with
+  | zero =>
+    intro k st u best n h
+    have hc : ¬ st.continual = true := by
+      intro hc; obtain ⟨h1, h2⟩ := h hc; omega
+    cases k with
+    | zero => rfl
+    | succ k => rw [Nat.zero_add, mpcLoop, mpcLoop]; simp [hc]
+  | succ fuel ih =>
+    intro k st u best n h
+    have e : fuel + 1 + k = (fuel + k) + 1 := by omega
+    rw [e, mpcLoop, mpcLoop]
+    by_cases hc : st.continual = true
+    · simp only [hc, if_true]
+      obtain ⟨h1, h2⟩ := h hc
+      apply ih
+      intro hc'
+      have := step_continual st _ hc'
+      rw [step_maxSteps, step_steps]
+      push_cast at this ⊢
+      constructor
+      · have : st.maxSteps ≤ max st.maxSteps 1 := le_max_left _ _
+        omega
+      · omega
+    · simp [hc]
+
+end mpcloop
+
 end PP.Lqr
